@@ -73,7 +73,8 @@ pub async fn scenario(seed: u64, opts: &RwOpts) {
     let mut rng = Rng::new(seed ^ 0x7A10C);
     NEXT_VAL.store(1, Ordering::SeqCst);
     NEXT_OP.store(1, Ordering::SeqCst);
-    tr(json!({"ev": "reset", "seed": seed, "wl": "rwlock", "remote": opts.remote, "cut": opts.cut}));
+    let (ca, cb) = (upper_cfg(&mut rng), upper_cfg(&mut rng));
+    tr(json!({"ev": "reset", "seed": seed, "wl": "rwlock", "remote": opts.remote, "cut": opts.cut, "cfg": [ca.json(), cb.json()]}));
     install_spawn_policy(seed, opts.defer, 3);
     let owner = Owner::new(0u32);
     let mut handles: Vec<tokio::task::JoinHandle<()>> = Vec::new();
@@ -85,7 +86,6 @@ pub async fn scenario(seed: u64, opts: &RwOpts) {
         insts.push((owner.rw_lock(), 1));
     }
     if opts.remote {
-        let (ca, cb) = (upper_cfg(&mut rng), upper_cfg(&mut rng));
         let mut conn = rem_connect::<RwLock<u32>, ()>(&ca, &cb, seed, 0).await;
         let k = rng.range(1, 2);
         for _ in 0..k {
@@ -129,6 +129,9 @@ pub async fn scenario(seed: u64, opts: &RwOpts) {
     }
     let left = wait_tasks(&mut handles, &links, 4000).await;
     tr(json!({"ev": "rw_end", "pending": left}));
+    if left > 0 {
+        tr(json!({"ev": "quiescent", "pending": []}));
+    }
     // the committed value survives on the owner
     if left == 0 {
         let op = NEXT_OP.fetch_add(1, Ordering::SeqCst);
